@@ -29,7 +29,7 @@ func NewTimer(d Duration) *Timer {
 func (t *Timer) Stop() bool {
 	if t.ts != nil {
 		if x := sched.Cur(); x != nil {
-			x.Point("Timer.Stop", t, func() bool { return true })
+			x.Point("Timer.Stop", t.ts, func() bool { return true })
 		}
 		was := t.ts.Armed
 		t.ts.Armed = false
@@ -41,7 +41,7 @@ func (t *Timer) Stop() bool {
 func (t *Timer) Reset(d Duration) bool {
 	if t.ts != nil {
 		if x := sched.Cur(); x != nil {
-			x.Point("Timer.Reset", t, func() bool { return true })
+			x.Point("Timer.Reset", t.ts, func() bool { return true })
 		}
 		was := t.ts.Armed
 		t.ts.Armed = true
@@ -78,6 +78,9 @@ func NewTicker(d Duration) *Ticker {
 
 func (t *Ticker) Stop() {
 	if t.ts != nil {
+		if x := sched.Cur(); x != nil {
+			x.Point("Ticker.Stop", t.ts, func() bool { return true })
+		}
 		t.ts.Armed = false
 		return
 	}
@@ -86,6 +89,9 @@ func (t *Ticker) Stop() {
 
 func (t *Ticker) Reset(d Duration) {
 	if t.ts != nil {
+		if x := sched.Cur(); x != nil {
+			x.Point("Ticker.Reset", t.ts, func() bool { return true })
+		}
 		t.ts.Armed = true
 		return
 	}
